@@ -38,38 +38,46 @@ Theorem C04_commit_deps_nonisolated : forall appl heads a m,
 Proof. exact commit_deps_nonisolated. Qed.
 
 (* isolated at [hs]: dependencies = [hs] (sorted); the actor is the first concurrency level
-   of the document's actor that has no change or whose latest op is covered by the clock at
-   [hs]; every lower level was rejected because its latest op is not covered *)
+   of the document's actor that has no change or whose LATEST change (its seq is the number of
+   its applied changes) is among the ancestors of [hs]; every lower level was rejected because
+   its latest change is not *)
 Theorem C04_commit_deps_isolated : forall appl heads a hs m,
   commit_meta appl heads a (Some hs) = Ok m ->
   cm_deps m = sortN (filter (has_hash appl) hs) /\
   (incl hs (hashes appl) -> forall h, In h (cm_deps m) <-> In h hs) /\
   exists j, cm_actor m = level_actor a j /\
-    (max_op_for_actor appl (cm_actor m) = 0 \/
-     max_op_for_actor appl (cm_actor m) <= clock_at_get appl hs (cm_actor m)) /\
+    (seq_for_actor appl (cm_actor m) = 0 \/
+     seq_clock_at appl hs (cm_actor m) = seq_for_actor appl (cm_actor m)) /\
     forall k, k < j ->
-      max_op_for_actor appl (level_actor a k) <> 0 /\
-      clock_at_get appl hs (level_actor a k) < max_op_for_actor appl (level_actor a k).
+      seq_for_actor appl (level_actor a k) <> 0 /\
+      seq_clock_at appl hs (level_actor a k) <> seq_for_actor appl (level_actor a k).
 Proof. exact commit_deps_isolated. Qed.
 
-(* what the covering test of isolate_actor buys: when the chosen actor's seq_index positions are
-   seq - 1 (asserted by the code) and its later changes reach higher op counters (none of them
-   is empty), its previous change is an ancestor of the isolation heads, so the new change
-   continues the actor's chain ... *)
+(* the previous change of the actor an isolated transaction writes as is ALWAYS an ancestor of
+   the isolation heads ([SeqIdx]: seq_index positions are seq - 1, asserted by the code and an
+   invariant of the machine, C04_chain_invariant) *)
 Theorem C04_isolated_prev_is_ancestor : forall appl heads a hs m p,
   commit_meta appl heads a (Some hs) = Ok m ->
-  SeqIdx appl (cm_actor m) -> StrictOps appl (cm_actor m) ->
-  prev_change appl (cm_actor m) = Some p -> 1 <= max_op p ->
+  SeqIdx appl (cm_actor m) -> prev_change appl (cm_actor m) = Some p ->
   In p (ancestors appl hs).
 Proof. exact isolated_prev_is_ancestor. Qed.
 
-(* ... and NOT otherwise: a change, an empty change, and a transaction isolated at the first
-   change (one actor, all through commits of the model machine) leave the actor's changes
-   without a chain - the third change has seq 3 and does not descend from the second.  The
-   implementation reproduces this (finding reported under C10). *)
-Theorem C04_isolated_commit_breaks_chain_refuted :
-  exists steps m, run_fresh m_empty steps /\ m_run m_empty steps = Ok m /\ ~ ActorChain (applied (m_doc m)).
-Proof. exact isolated_commit_breaks_chain. Qed.
+(* every created change - plain, empty or isolated - has the next seq of its actor and descends
+   from that actor's previous change *)
+Theorem C04_commit_continues_chain : forall appl a iso m h ops,
+  Built appl -> (forall a, SeqIdx appl a) ->
+  commit_meta appl (heads_of appl) a iso = Ok m ->
+  chain_ok_new appl (mkChange h (cm_actor m) (cm_seq m) (cm_start m) (cm_deps m) ops).
+Proof. exact commit_chain_ok. Qed.
+
+(* so each actor's applied changes form a chain under the ancestor relation in every state
+   reached from the empty document by commits and by deliveries of changes that continue their
+   actor's chain ([run_chain_ok]: next seq - else the code panics - and descending from the
+   previous change, as every library-created change does) *)
+Theorem C04_chain_invariant : forall steps m,
+  run_fresh m_empty steps -> run_chain_ok m_empty steps -> m_run m_empty steps = Ok m ->
+  AChain (applied (m_doc m)).
+Proof. intros steps m Hf Hok H. exact (chain_invariant steps m_empty m MInv_empty AChain_nil Hf Hok H). Qed.
 
 (* heads, as an invariant of every step: after ANY sequence of deliveries (apply_changes, merge,
    load, sync: [SReceive]) and local commits (plain, empty, isolated: [SCommit]) from the empty
@@ -123,21 +131,22 @@ Proof.
   cbn. repeat split; vm_compute; intuition discriminate.
 Qed.
 
-(* non-vacuity of C04_isolated_prev_is_ancestor: actor [1] made two non-empty changes, [2] a
-   concurrent one; a transaction isolated at actor [1]'s latest change is written by [1] *)
+(* non-vacuity of C04_isolated_prev_is_ancestor: actor [1] made two changes, [2] a concurrent
+   one; a transaction isolated at actor [1]'s latest change is written by [1]; isolated at its
+   FIRST change it is written by the concurrency-level actor instead *)
 Example C04_isolated_prev_nonvacuous :
-  let appl := [ mkChange 1 [1] 1 1 [] [dummy_op]; mkChange 2 [1] 2 2 [1] [dummy_op];
+  let appl := [ mkChange 1 [1] 1 1 [] [dummy_op]; mkChange 2 [1] 2 2 [1] [];
                 mkChange 3 [2] 1 2 [1] [dummy_op; dummy_op] ] in
-  exists m p, commit_meta appl (heads_of appl) [1] (Some [2]) = Ok m /\ cm_actor m = [1] /\ cm_seq m = 3 /\
-    cm_start m = 4 /\ cm_deps m = [2] /\
-    SeqIdx appl (cm_actor m) /\ StrictOps appl (cm_actor m) /\
-    prev_change appl (cm_actor m) = Some p /\ 1 <= max_op p.
+  (exists m p, commit_meta appl (heads_of appl) [1] (Some [2]) = Ok m /\ (cm_actor m = [1]) /\ (cm_seq m = 3) /\
+    (cm_start m = 4) /\ (cm_deps m = [2]) /\
+    SeqIdx appl (cm_actor m) /\ prev_change appl (cm_actor m) = Some p) /\
+  (exists m, commit_meta appl (heads_of appl) [1] (Some [1]) = Ok m /\
+    cm_actor m = with_concurrency [1] 1 /\ (cm_seq m = 1) /\ (cm_deps m = [1])).
 Proof.
-  eexists. eexists. split; [vm_compute; reflexivity|]. cbn [cm_actor cm_seq cm_start cm_deps].
-  split; [reflexivity|]. split; [reflexivity|]. split; [reflexivity|]. split; [reflexivity|].
-  split; [|split; [|split; [vm_compute; reflexivity|vm_compute; discriminate]]].
-  - intros i c. vm_compute. destruct i as [|[|[|i]]]; intros H; inversion H; subst; vm_compute; reflexivity.
-  - intros c1 c2 H1 H2 A1 A2 Hs.
-    destruct H1 as [<-|[<-|[<-|[]]]]; destruct H2 as [<-|[<-|[<-|[]]]];
-      cbn [ch_actor ch_seq] in *; try discriminate; try lia; vm_compute; reflexivity.
+  split.
+  - eexists. eexists. split; [vm_compute; reflexivity|]. cbn [cm_actor cm_seq cm_start cm_deps].
+    split; [reflexivity|]. split; [reflexivity|]. split; [reflexivity|]. split; [reflexivity|].
+    split; [|vm_compute; reflexivity].
+    intros i c. vm_compute. destruct i as [|[|[|i]]]; intros H; inversion H; subst; vm_compute; reflexivity.
+  - eexists. split; [vm_compute; reflexivity|]. cbn [cm_actor cm_seq cm_deps]. auto.
 Qed.
